@@ -36,6 +36,7 @@ HEADER_LISTS = [
     ('upper', [(b':status', b'200'), (b'X-Up', b'v')]), ('conn', REQ + [(b'connection', b'close')]),
     ('str', [(':method', 'GET'), (':scheme', 'https'), (':authority', 'example.com'), (':path', '/')]),
     ('dup', REQ + [(b':path', b'/b')]), ('empty-name', RESP + [(b'', b'v')]),
+    ('unencodable', REQ + [('x-bad-text', 'v\udcff')]),
 ]
 
 
@@ -113,7 +114,8 @@ def run_case(data):
         if sid in succeeded_on:
             raise_after_success = True
         e = o.exc
-        documented = isinstance(e, h2.exceptions.H2Error) or type(e) in (ValueError, TypeError)
+        # (UnicodeEncodeError for text that cannot be encoded is a ValueError)
+        documented = isinstance(e, h2.exceptions.H2Error) or type(e) in (ValueError, TypeError, UnicodeEncodeError)
         if not documented:
             w.violate('undocumented-exception:%s:%s' % (type(e).__name__, name), repr(e)[:200])
         if o.out:
@@ -162,7 +164,8 @@ def run_case(data):
         op = ch.weighted([(7, 'send_headers'), (6, 'send_data'), (3, 'end_stream'), (3, 'increment'), (3, 'push'),
                           (2, 'ping'), (4, 'reset'), (1, 'close'), (2, 'settings'), (2, 'altsvc'), (2, 'prioritize'),
                           (2, 'window-query'), (3, 'ack'), (1, 'data_to_send'), (1, 'next-id'), (5, 'cleanup'),
-                          (7, 'peer-open'), (6, 'peer-close'), (2, 'peer-response'), (2, 'peer-window')])
+                          (7, 'peer-open'), (6, 'peer-close'), (2, 'peer-response'), (2, 'peer-window'),
+                          (2, 'peer-ack')])
         sid = pick_sid()
         if op == 'send_headers':
             lname, hdrs = ch.pick(HEADER_LISTS)
@@ -257,6 +260,14 @@ def run_case(data):
                 not client and m.peer_enable_push and promised == w.next_local_id() <= TOP and lname in ('req', 'str')
                 and sid % 2 == 1) else None
             check('push_stream', sid, o, exp)
+        elif op == 'peer-ack':
+            # the peer acknowledges our SETTINGS (a larger local MAX_FRAME_SIZE says nothing about what we may send)
+            if m.closed:
+                continue
+            o = s.feed(wire.settings(ack=True))
+            r.step('recv SETTINGS ACK', o.brief())
+            if not o.ok:
+                w.stop = True
         elif op == 'peer-window':
             # the peer changes INITIAL_WINDOW_SIZE: send windows may become zero or negative, which only ever
             # turns sends into FlowControlError
@@ -292,7 +303,8 @@ def run_case(data):
                 m.closed = 'sent-goaway'
             check('close_connection', None, o)
         elif op == 'settings':
-            new = ch.pick([{4: 100}, {5: 16384}, {2: 2}, {4: 2**31}, {5: 1}, {3: 0}, {0x7f: 1}, {}, {1: 0, 8: 5}])
+            new = ch.pick([{4: 100}, {5: 16384}, {2: 2}, {4: 2**31}, {5: 1}, {3: 0}, {0x7f: 1}, {}, {1: 0, 8: 5},
+                           {5: 32768}, {5: 2**24 - 1}])
             o = s.call('update_settings', dict(new))
             r.step('update_settings', new, o.brief())
             check('update_settings', None, o)
@@ -337,10 +349,15 @@ def run_case(data):
         elif op == 'ack':
             n = ch.pick([0, 1, 100, 70000, -1])
             target = ch.pick([sid, sid, 0, -3])
+            # what the library itself says about the stream: StreamClosedError from a window query means "closed
+            # and forgotten", however it came to be closed (also by a refused local call, K03)
+            q = s.call('remote_flow_control_window', target) if target > 0 else None
+            says_forgotten = q is not None and not q.ok and type(q.exc) is h2.exceptions.StreamClosedError
             o = s.call('acknowledge_received_data', n, target)
             r.step('acknowledge_received_data', n, target, o.brief())
-            if target in forgotten and n >= 0 and not o.ok:
-                w.violate('acknowledge-on-forgotten-stream-raised:%s' % o.exc_name, '')
+            if (target in forgotten or says_forgotten) and n >= 0 and not o.ok and not m.closed:
+                w.violate('acknowledge-on-forgotten-stream-raised:%s' % o.exc_name,
+                          'stream %r (%s)' % (target, 'model' if target in forgotten else 'window query says closed'))
             if o.ok and target in forgotten:
                 cleaned_target = True
             if not o.ok:
